@@ -82,21 +82,21 @@ Definition set_gate s x :=
 
 (* admission test of _do_reserve_put.  Belt stores: one item enters at a time (no grant while a
    granted space reservation is unused), and the time- and mode-dependent tests (spacing against
-   the last item on a moving belt; "nothing is admitted while the head of a non-accumulating belt
+   the last item on a moving belt; "nothing is allowed while the head of a non-accumulating belt
    waits") are the boolean [gate], set from outside. *)
 Definition used (s : store) : nat := length (putres s) + length (transit s) + length (ready s).
-Definition admit_put (s : store) : bool :=
+Definition allow_put (s : store) : bool :=
   (used s <? cap s) &&
   match s_kind s with
   | KBelt | KSlot => (length (putres s) =? 0) && gate s
   | _ => true
   end.
-Definition admit_get (s : store) : bool := length (getres s) <? length (ready s).
+Definition allow_get (s : store) : bool := length (getres s) <? length (ready s).
 
 Definition trig_put (s : store) : store * list tok :=
   match putq s with
   | [] => (s, [])
-  | r :: q => if admit_put s
+  | r :: q => if allow_put s
               then (set_putres (set_putq s q) (putres s ++ [r]), [r_tok r])
               else (s, [])
   end.
@@ -117,7 +117,7 @@ Definition trig_get (s : store) : option (store * list tok) :=
   match getq s with
   | [] => Some (s, [])
   | r :: q =>
-      if admit_get s then
+      if allow_get s then
         match pick s with
         | Some it => Some (set_getres (set_getq s q) (getres s ++ [(r, it)]), [r_tok r])
         | None => None
